@@ -8,6 +8,8 @@
 -/
 import Gojq.Proofs.Stream
 import Gojq.Proofs.Inputs
+import Gojq.Proofs.Fromstream
+import Gojq.Proofs.Flags
 namespace Gojq.C16
 open Gojq Gojq.Stream Gojq.Inputs
 
@@ -55,6 +57,29 @@ theorem stream_truncated_prefix (moreEnd : Bool) (term : Term) (v : JV) (pre suf
   simp only [tokensDocs, streamSpecDocs, List.nil_append] at h
   rw [h]
   exact ⟨rfl, List.take_prefix _ _⟩
+
+/-- `fromstream` rebuilds every document from the events the machine emits: for every document
+    `v` whose objects are duplicate-free (members in ANY order), `fromstream` over the events
+    yields exactly one value, the document in the library's canonical form (`canon`: members
+    sorted by key). -/
+theorem stream_rebuilds (moreEnd : Bool) (v : JV) (hv : nodup v) :
+    fromstreamSpec (run moreEnd .eof (tokens v)).1 = .ok [canon v] := by
+  rw [stream_events]
+  have := rebuild_docs [v] (by simpa using hv) ⟨.null, false⟩ (Or.inr rfl) []
+  simpa [fromstreamSpec, streamSpecDocs] using this
+
+/-- For a document already in canonical form (`JV.wf`: keys strictly increasing at every
+    depth — every value the library holds) the rebuilt value is the document itself. -/
+theorem stream_rebuilds_wf (moreEnd : Bool) (v : JV) (hv : v.wf = true) :
+    fromstreamSpec (run moreEnd .eof (tokens v)).1 = .ok [v] := by
+  rw [stream_rebuilds moreEnd v (nodup_wf v hv), canon_wf v hv]
+
+/-- `gojq --stream . | gojq -n 'fromstream(inputs)'` on a reader holding any sequence of
+    documents yields the documents, in order. -/
+theorem stream_rebuilds_docs (moreEnd : Bool) (vs : List JV) (hvs : ∀ v ∈ vs, nodup v) :
+    fromstreamSpec (run moreEnd .eof (tokensDocs vs)).1 = .ok (vs.map canon) := by
+  rw [stream_events_docs]
+  simpa [fromstreamSpec] using rebuild_docs vs hvs ⟨.null, false⟩ (Or.inr rfl) []
 
 /-- Under --stream the query's inputs for a well-formed reader are exactly the `tostream`
     events of its documents, in order, then end of input. -/
@@ -197,6 +222,31 @@ theorem raw_slurp_whole (r : Reader) (rs : List Reader) (stdin : Reader) (hne : 
       rw [← List.map_cons, filesIter_files]
       simpa using this
 
+/-! ## argument flags -/
+
+/-- `--arg`, `--argjson`, `--slurpfile`, `--rawfile` bind names; the first binding of a name wins,
+    across the four flags: looking a name up in what the flag parser keeps finds the flag and
+    the value text of its first occurrence, and no name is kept twice (so `$name` and
+    `$ARGS.named`, both built from these maps, agree). -/
+theorem args_binding (bs : List (Flags.Str × Flags.Str × Flags.Str)) (hbs : ∀ b ∈ bs, b.1 ∈ Flags.mapFlagNames) :
+    ∃ p, Flags.parseFlags (Flags.argsOf bs) = .ok p ∧
+      (∀ n, p.maps.find? (fun b => b.2.1 == n) = bs.find? (fun b => b.2.1 == n)) ∧
+      p.maps.Pairwise (fun a b => a.2.1 ≠ b.2.1) := by
+  have hk : Flags.KeysOK ({} : Flags.PS) := by intro n; simp
+  have hp := Flags.parse_bindings bs {} [] hbs rfl
+  simp only [List.append_nil] at hp
+  refine ⟨(Flags.bindAll {} bs).out, ?_, ?_, ?_⟩
+  · unfold Flags.parseFlags; rw [hp]; rfl
+  · intro n; simpa using Flags.bindAll_find bs {} hk n
+  · exact Flags.bindAll_nodup bs {} hk List.Pairwise.nil
+
+/-- `--args` and `--jsonargs`: the free arguments after the query are the positional values, in
+    order (strings here; `--jsonargs` values are parsed afterwards by runInternal). -/
+theorem args_positional (q : Flags.Str) (xs : List Flags.Str) (hq : q.head? ≠ some '-')
+    (hxs : ∀ x ∈ xs, x.head? ≠ some '-') :
+    Flags.parseFlags ("--args".toList :: q :: xs) = .ok { rest := [q], args := xs.map some } :=
+  Flags.positional_capture q xs hq hxs
+
 /-! Non-vacuity: concrete instances of the hypotheses above. -/
 example : run false .eof (tokens (.arr [.num (.int 1), .arr [], .obj [(Bytes.ofString "b", .arr [.null])], .num (.int 2)])) =
     (streamSpec (.arr [.num (.int 1), .arr [], .obj [(Bytes.ofString "b", .arr [.null])], .num (.int 2)]), .eof) :=
@@ -205,6 +255,10 @@ example : run true .eof (tokensDocs [.null] ++ [.lbrack, .atom (.num (.int 1))])
     (streamSpecDocs [.null] ++ (streamSpec (.arr [.num (.int 1), .num (.int 2)])).take 1, .error) :=
   stream_truncated true .eof [.null] (.arr [.num (.int 1), .num (.int 2)]) [(.lbrack, false), (.atom (.num (.int 1)), true)]
     [(.atom (.num (.int 2)), true), (.rbrack, true)] rfl (by simp) (Or.inl (by simp))
+example : Flags.parseFlags (Flags.argsOf [("arg".toList, ['a'], ['1']), ("argjson".toList, ['a'], ['2'])]) =
+    .ok { maps := [("arg".toList, ['a'], ['1'])] } := by rfl
+example : nodup (.obj [([98], .arr [.obj []]), ([97], .num (.int 1))]) := by simp [nodup, nodupM, nodupL]
+example : (JV.obj [([97], .arr [.obj []]), ([98], .num (.int 1))]).wf = true := by decide
 example : inputIter { slurp := true } [] { docs := [.value .null, .value (.bool true)] } = [.val (.arr [.null, .bool true])] := by
   rw [slurp_eq_inputs {} [] _ rfl]; rfl
 example : rawLines [97, 10, 98] = [[97], [98]] ∧ rawLines [97, 10] = [[97]] ∧ rawLines [10] = [[]] := by decide
